@@ -67,6 +67,7 @@ class TypeScriptStringConcatAnalyzer(TypeScriptBaseAnalyzer):
 
         violations: list[StringConcatViolation] = []
         self._string_variables = set()
+        self._loop_lines = []  # per file: never carried over, even after an aborted walk
 
         # First pass: identify variables initialized as strings
         self._identify_string_variables(root_node)
